@@ -180,7 +180,12 @@ func init() {
 					rr := w.app.ClpKeeper.GetPmtpRateParams(w.ctx).PmtpCurrentRunningRate.BigInt()
 					fS := w.app.ClpKeeper.GetSwapFeeRate(w.ctx, *asset("rowan"), false).BigInt()
 					fB := w.app.ClpKeeper.GetSwapFeeRate(w.ctx, *asset(sym), false).BigInt()
-					out.Emit(fmt.Sprintf("chk c04.addremove tag=add.remove %s %s %s %s %s %s %s %s %s", rr, fS, fB, s0.R, s0.A, nAmt, eAmt, n2, e2), "true", "chk.addremove", false)
+					// the round-trip clauses of C04 quantify over ratio-shifting rates in [0,1]: outside that domain the
+					// round trip is still compared with the model, but the clause is not judged (the rounding of the
+					// internal swap amount is amplified by 1+r, beyond the dust the property allows)
+					if rr.Sign() >= 0 && rr.Cmp(pow18) <= 0 {
+						out.Emit(fmt.Sprintf("chk c04.addremove tag=add.remove %s %s %s %s %s %s %s %s %s", rr, fS, fB, s0.R, s0.A, nAmt, eAmt, n2, e2), "true", "chk.addremove", false)
+					}
 				}
 			}
 		}
